@@ -146,6 +146,7 @@ func parseParams(s string) map[string]int {
 }
 
 func main() {
+	interp.RepoRoot = repoRoot
 	if len(os.Args) < 2 {
 		fatal(2, "usage: gosx run|check|replay ...")
 	}
